@@ -54,6 +54,28 @@ def main():
                             'cfg': {'lmtp': lmtp, 'pipelining': pipe, 'pool_size': pool_size or 0, 'idle': idle or 0, 'maxconn': max(8, r.nconn),
                                     'sched': sched}, 'ev': ev}, separators=(',', ':')) + '\n')
         n += 1
+    # ---- directed: a transaction refused at one stage, then further messages on the same (reused) connection
+    if shard == 0 or not quick:
+        dk = 0
+        for lmtp in (False, True):
+            for pipe in (False, True):
+                for stage in ('mail', 'rcpt', 'data', 'eod'):
+                    for code in (450, 550):
+                        for nr in (1, 2):
+                            dk += 1
+                            if not quick and dk % nshards != shard:
+                                continue
+                            script = {stage: {0: code}}
+                            r = rdrv.RelayRun(lmtp, pipe, [script], pool_size=1, idle_timeout=5)
+                            for req in (1, 2, 3):
+                                r.attempt(req, nr if req != 2 else 3 - nr)
+                                r.settle()
+                            ev = r.run_to_end()
+                            stats['executions'] += 1
+                            f.write(json.dumps({'id': shard + n * nshards, 'cls': 'reuse-after-refusal',
+                                                'cfg': {'lmtp': lmtp, 'pipelining': pipe, 'pool_size': 1, 'idle': 5, 'maxconn': max(8, r.nconn),
+                                                        'sched': 'cscsc'}, 'ev': ev}, separators=(',', ':')) + '\n')
+                            n += 1
     f.write(json.dumps({'summary': stats}) + '\n')
     f.close()
 
